@@ -46,34 +46,35 @@ type Schedule struct {
 }
 
 const maxCallers = 3
-const maxGens = 4
+const maxGens = 6
 
 type world struct {
-	ctl     *sched.Ctl
-	w       *vh.Writer
-	cl      *kmipclient.Client
-	srv     map[int]*memnet.Conn // server end per generation
-	srvbuf  map[int][]byte
-	pending map[int]map[int]bool
-	srvDown map[int]bool
-	seen    map[int]map[int]int // requests received per generation per id (all bytes ever written by the client)
-	ngen    int
-	dialOut map[int]string // scripted dial outcome for the n-th dial (1-based; dial 1 is kmipclient.Dial itself)
-	ndial   int
-	pmu     sync.Mutex
+	ctl           *sched.Ctl
+	w             *vh.Writer
+	cl            *kmipclient.Client
+	srv           map[int]*memnet.Conn // server end per generation
+	srvbuf        map[int][]byte
+	pending       map[int]map[int]bool
+	srvDown       map[int]bool
+	seen          map[int]map[int]int // requests received per generation per id (all bytes ever written by the client)
+	ngen          int
+	idle          bool
+	dialOut       map[int]string // scripted dial outcome for the n-th dial (1-based; dial 1 is kmipclient.Dial itself)
+	ndial         int
+	pmu           sync.Mutex
 	starveForeign bool
-	ptrGen  map[string]int
-	roleTaken map[string]bool
-	ngenSeen  int
-	roleOf  map[uint64]string
-	cancel  map[int]context.CancelFunc
-	started map[int]bool
-	result  map[int][]any
-	closeStarted bool
-	closeDone    bool
-	lockHolder   int
-	rnd     *rand.Rand
-	diverged int
+	ptrGen        map[string]int
+	roleTaken     map[string]bool
+	ngenSeen      int
+	roleOf        map[uint64]string
+	cancel        map[int]context.CancelFunc
+	started       map[int]bool
+	result        map[int][]any
+	closeStarted  bool
+	closeDone     bool
+	lockHolder    int
+	rnd           *rand.Rand
+	diverged      int
 }
 
 func role(c int, r string) string { return fmt.Sprintf("%d.%s", c, r) }
@@ -305,6 +306,10 @@ func (wd *world) env(act string, c int, id int) bool {
 			return false
 		}
 		wd.started[c] = true
+		if wd.idle {
+			// (virtual) time passes between calls: nothing in the specification depends on how long a connection has been idle
+			time.Sleep(2 * time.Second)
+		}
 		ctx, cancel := context.WithCancel(context.Background())
 		wd.cancel[c] = cancel
 		wd.w.Emit(map[string]any{"ev": "env", "act": act, "c": c})
@@ -473,6 +478,7 @@ func runOne(w *vh.Writer, sc Schedule, seed int64, randomSteps int, withClose bo
 	w.Emit(map[string]any{"ev": "reset", "id": sc.ID})
 	wd := newWorld(w, seed)
 	wd.starveForeign = seed%2 == 0
+	wd.idle = seed%3 != 0
 	kmipclient.VerifHook = wd.ctl.Hook
 	// kmipclient.Dial with an enforced version: the first generation exists before any call
 	cl, err := kmipclient.Dial("mem", kmipclient.WithDialerUnsafe(wd.dial), kmipclient.EnforceVersion(kmip.V1_4))
